@@ -77,6 +77,26 @@ PROPS = {
         "level_text": "Insertion is checked on graphs that have a history, because that is where its defect classes live (index holes in the source, freed indices reused in the target so the mapping is not monotone, ports with several links, order links, metadata). The oracle observes both HUGRs through public queries before and after and checks isomorphism, root placement, frame and source-unmodified independently of the implementation's own mapping logic.",
         "level_note": "Trusted: oracles/iso.py. Later aliasing of metadata dicts between source and target is not asserted (the statement is about the moment of insertion). Operations are compared by identity or dataclass equality.",
     },
+    "C09": {
+        "engine": "C", "level": "fault_enumeration",
+        "tiers": {"quick": {"batches": 16, "runs": 40, "budget_s": 50, "floor_runs": 300},
+                  "thorough": {"batches": 16, "runs": 1500, "budget_s": 900, "floor_runs": 10000}},
+        "exhaustive_key": ["header_pairs_checked", {"quick": -1, "thorough": 65536}],
+        "rule": "one run = one seeded package (0-4 engine-B modules, 0-3 engine-E extensions, non-ASCII names/metadata) x one "
+                "configuration (JSON, zstd in {None,0,1,3,19,22}, default config) through to_bytes/from_bytes (in process or "
+                "via the reader node in another interpreter) and to_str/from_str; header bytes checked; storage faults with a "
+                "stated oracle applied to the stored bytes of every run: all truncations to 0-9 bytes, all 64 single-bit flips of "
+                "the magic, 4 random magics; the first 256 runs (by batch and run index, independent of the seed) each enumerate "
+                "one format byte against flags values (all 256 in the thorough tier and for format 63; every 16th plus {1,64,65,255} "
+                "in the quick tier) in front of a correct payload; seeded payload faults only feed probes; non-trivial = any run",
+        "real": ["hugr.envelope, hugr.package, pyzstd, extension/package serialisation models", "reader node = second interpreter"],
+        "stub": ["the disk: bytes between to_bytes and from_bytes are held and corrupted by the simulator (SimDisk role)",
+                 "MODULE / MODULE_WITH_EXTS payload encoding needs the absent native module: not encodable offline; only their to_str rejection and header-level rejection on read are exercised"],
+        "expected_probes": ["restart_read", "text_envelope", "non_ascii_in_text_envelope"],
+        "technique": "write / corrupt / restart / read: seeded packages and configurations for the round trip; the header fault space (format x flags, truncations, magic bit flips) enumerated completely in the thorough tier in front of valid payloads",
+        "level_text": "The statement itself enumerates the fault space (all 2^16 format/flag pairs, all truncations below a header, wrong magic), so the fault leg is an enumeration, complete in the thorough tier (exhaustive: true is set from the measured pair count); the round-trip leg is seeded over packages and configurations and crosses a real process boundary in a quarter of the runs.",
+        "level_note": "Trusted: docs_of (module/extension documents as JSON values) as the equality of packages; header constants from the statement. For format byte 63 any flags value must decode (compressed iff bit 0): the statement constrains the written flags, not the accepted ones. Payload-level corruption has no stated oracle and is reported as probes.",
+    },
     "C10": {
         "engine": "C+E", "level": "exploration",
         "tiers": {"quick": {"batches": 16, "runs": 300, "budget_s": 50, "floor_runs": 1000},
@@ -97,6 +117,25 @@ PROPS = {
         "technique": "seeded registry-building histories, write / restart / read with the reader under a different hash seed (requirement sets are emitted in set-iteration order: the one real nondeterminism in the code base), field-wise and document-fixpoint oracle; static std-lib comparison at boot",
         "level_text": "The round-trip half is simulated: histories build the extensions, and the second party reads the document in a different interpreter whose hash seed differs, which is exactly where requirement sets serialised in set-iteration order diverge. The std-lib half is a static comparison that rides on the simulation's boot and is labelled as such.",
         "level_note": "Trusted: the comparison summary (reader_main.ext_summary), oracles/refsem.cpoly for signatures (requirement sets as sets), the published Extension schema. Lowering functions are excluded (as in the statement).",
+    },
+    "C11": {
+        "engine": "E", "level": "exploration",
+        "tiers": {"quick": {"batches": 16, "runs": 250, "budget_s": 50, "floor_runs": 800},
+                  "thorough": {"batches": 64, "runs": 3000, "budget_s": 550, "floor_runs": 30000}},
+        "rule": "one run = either (a) an engine-B product (std ops and types, collections array/list nested in sums, function "
+                "types and type arguments, verif.q ops, ops/types of an extension no early registry knows) stored as a document, "
+                "loaded back (all ops and types opaque) and driven through a session of resolve_extensions steps against an "
+                "increasing chain of registry snapshots (empty / partial / complete) with each step delivered 1-3 times, or (b) a "
+                "nested type expression stored and loaded opaque and resolved step by step the same way; after every step: "
+                "exactly-when at every depth, untouched, idempotent, wire-invariant (description excepted), sig-invariant, "
+                "model-invariant; non-trivial = >= 2 resolve steps; distinct = distinct event-log digests",
+        "real": ["Hugr.resolve_extensions, ops.Custom.resolve, tys.*.resolve, ExtensionRegistry, to_json / to_model of resolved objects"],
+        "stub": ["the store holding the document is a string owned by the simulator"],
+        "expected_probes": ["op_resolved", "type_resolved:top-level", "type_resolved:inside-sum", "type_resolved:inside-function-type",
+                            "type_resolved:type-argument", "type_resolved:argument-of-opaque-type", "unregistered_extension_op"],
+        "technique": "sessions of resolve steps on loaded HUGRs / type expressions under fault injection at the request level: duplicate delivery of the same resolve, partial registries that are later completed; invariants checked after every step",
+        "level_text": "The statement's quantifier includes the registry's state of knowledge (empty, partial, complete) and 'resolving twice equals resolving once'; the check turns these into a session history: knowledge arrives in steps, steps are delivered more than once, and after every delivery the HUGR (or type) is compared with the stored document, the exported model and its signatures, with resolvedness checked at every depth.",
+        "level_note": "Trusted: the resolvedness walker in props/c11.py and the registry table. For HUGR-level steps only opaque operations are in scope (with the types in their signature and arguments), as the statement says; opaque types inside already-resolved or core operations are in scope only in the type-level leg.",
     },
     "C12": {
         "engine": "B", "level": "exploration",
